@@ -210,6 +210,8 @@ theorem i64_intTok (z : Int) :
 
 def I64 (z : Int) : Prop := -9223372036854775808 ≤ z ∧ z < 9223372036854775808
 
+instance (z : Int) : Decidable (I64 z) := by unfold I64; infer_instance
+
 theorem parseSignedTok_intTok {z : Int} (h : I64 z) : parseSignedTok (intTok z) = .ok z := by
   unfold parseSignedTok
   rw [i64_intTok]
@@ -370,6 +372,8 @@ theorem unquote_pieces (ps : List Piece) (h : ∀ p ∈ ps, p.ok) :
 
 /-- The strings the faithfulness theorem covers: unquoting the quoted string gives it back. -/
 def Clean (s : Str) : Prop := unquote (quote s) = s
+
+instance (s : Str) : Decidable (Clean s) := by unfold Clean; infer_instance
 
 theorem clean_of_no_backslash (s : Str) (h : ∀ c ∈ s, c ≠ '\\') : Clean s := by
   have := unquote_pieces [.seg s] (by intro p hp; simp at hp; subst hp; exact h)
